@@ -9,7 +9,9 @@ from ..core import Disc, Subcheck, exc_detail, exc_key
 
 PROPERTY_ID = 'C15'
 LEVEL = 'exploration'
-RULE = ('1-3 generated interfaces, each 0-6 methods / signals / properties whose signatures are concatenations of 0-4 '
+RULE = ('relay: the parsed definitions are exported by another object and ITS XML parsed again (second generation) with the same '
+        'comparison. '
+        '1-3 generated interfaces, each 0-6 methods / signals / properties whose signatures are concatenations of 0-4 '
         'complete types from the full grammar (containers, nested structs, dict entries, unix fds), all four '
         '(readable, writeable) combinations and three change-notification modes, declared on a DBusObject subclass (or '
         'split over base and subclass, or with the second group on a plain mixin listed before / after the base) exported at a generated path alone or with children (child nodes are the subject of C16); some interfaces are '
@@ -242,6 +244,35 @@ def run_case(case):
                                                                               'declares it' % (m['name'], spec['name'], other['name'])))
                     except (AttributeError, TypeError):
                         pass
+        # ---- a relay: the PARSED definitions are themselves interface definitions; another object exports them and ITS
+        # introspection XML is parsed again (second generation)
+        if declared and not out:
+            relay = type('Relay', (O.DBusObject,), {'dbusInterfaces': list(declared)})(case['path'])
+            try:
+                xml2 = X.generateIntrospectionXML(case['path'], {case['path']: relay})
+                parsed2 = X.getInterfacesFromXML(xml2, True)
+            except Exception as e:
+                return out + [Disc(exc_key(e, 'relay.exception'), exc_detail(e))]
+            p2 = {pi.name: pi for pi in (parsed2 or [])}
+            g = getattr
+            for spec in active:
+                pi = p2.get(spec['name'])
+                if pi is None:
+                    out.append(Disc('relay.interface-missing', spec['name']))
+                    continue
+                wantm = {m['name']: (m['in'], m['out'], len(R.split_signature(m['in'])), len(R.split_signature(m['out'])))
+                         for m in spec['methods']}
+                gotm = {n: (g(m, 'sigIn', '?'), g(m, 'sigOut', '?'), g(m, 'nargs', '?'), g(m, 'nret', '?')) for n, m in pi.methods.items()}
+                if gotm != wantm:
+                    out.append(Disc('relay.methods', 'a parsed definition exported again: expected %r got %r' % (wantm, gotm)))
+                wants = {s['name']: (s['sig'], len(R.split_signature(s['sig']))) for s in spec['signals']}
+                gots = {n: (g(s, 'sig', '?'), g(s, 'nargs', '?')) for n, s in pi.signals.items()}
+                if gots != wants:
+                    out.append(Disc('relay.signals', 'expected %r got %r' % (wants, gots)))
+                wantp = {p['name']: (p['sig'], _norm_access(p['r'], p['w'])) for p in spec['props']}
+                gotp = {n: (g(p, 'sig', '?'), g(p, 'access', '?')) for n, p in pi.properties.items()}
+                if gotp != wantp:
+                    out.append(Disc('relay.properties', 'expected %r got %r' % (wantp, gotp)))
     except Exception as e:
         out.append(Disc(exc_key(e, 'c15.exception'), exc_detail(e)))
     finally:
